@@ -1,7 +1,9 @@
 """K15a: parmcb::detail::spanning_forest (include/parmcb/detail/spanning_forest.hpp) as an E1 unit, all three
-nested loops closed by loop contracts; UNBOUNDED in the number of vertices and in the degrees (no ghost table is
-defined by a harness loop - the graph is seen through three accessor contracts that are functional at a ghost
-slot).
+nested loops closed by loop contracts; no bound on degrees, multi-edges or self-loops (the graph is seen through
+three accessor contracts that are functional at a ghost slot; no ghost table is defined by a harness loop).  The
+number of vertices is capped only by the size of the arrays the containers are bound to (5 quick / 8 thorough: the
+SAT time grows with it).  The part before the main loops (empty-graph return, filling the set) is a separate
+unit K15a_fill whose postcondition is the main unit's precondition.
 
 Binding: vertices are ordinals 0..n-1.  std::unordered_set<Vertex> unreached is an abstract data type given by
 its contract (uset_*: membership table UNR + cardinality nun); std::queue<Vertex> is the array Q with head/tail
@@ -23,6 +25,8 @@ emitted edges restricted to it form a tree; P4 makes a class closed under adjace
 connected components: c is their number, the n - c emitted edges are a spanning forest."""
 from lib import xtract as X
 from lib.core import Undecided
+
+MAXN_PROOF = "64"
 
 PRE = r"""
 #include <stddef.h>
@@ -65,6 +69,9 @@ __CPROVER_ensures(!UNR[v] && nun == __CPROVER_old(nun) - 1)
 size_t out_degree(size_t u)
 __CPROVER_assigns()
 __CPROVER_ensures((u == x0 ==> __CPROVER_return_value == d_x0) && (u == y0 ==> __CPROVER_return_value == d_y0))
+#ifdef VP_BOUNDED
+__CPROVER_ensures(__CPROVER_return_value <= 2)      /* bounded variant only: degrees <= 2 */
+#endif
 ;
 size_t out_target(size_t u, size_t j)
 __CPROVER_assigns()
@@ -72,7 +79,9 @@ __CPROVER_ensures(__CPROVER_return_value < vp_n)
 __CPROVER_ensures(((u == x0 && j == j0) ==> __CPROVER_return_value == y0) && ((u == y0 && j == j1) ==> __CPROVER_return_value == x0))
 ;
 size_t out_edge(size_t u, size_t j)
+__CPROVER_requires(1)
 __CPROVER_assigns()
+__CPROVER_ensures(1)
 ;
 /* ---- std::queue<Vertex> as array + head/tail; output iterator as arrays; ghost records */
 size_t Q[MAXN], head, tail;
@@ -82,7 +91,7 @@ size_t QPOS[MAXN], COMP[MAXN], POSOF[MAXN], ROOTOF[MAXN]; bool ISROOT[MAXN];
 """
 
 
-def _unit(bounded, stage=4):
+def _unit(bounded, stage=3, which="main"):
     log = []
     rel = "include/parmcb/detail/spanning_forest.hpp"
     text = X.src(rel)
@@ -125,14 +134,13 @@ def _unit(bounded, stage=4):
     # ---- invariants -------------------------------------------------------------------------------------------
     # facts about one ghost vertex v that hold at every loop head once the initialisation loop is done
     def vfacts(v, cur):
-        # cur: expression for "the label of the component being explored" (c) or None at the outer loop head
-        s = ("(REACHED(%(v)s) ==> (QPOS[%(v)s] < tail && Q[QPOS[%(v)s]] == %(v)s && COMP[%(v)s] <= c"
-             " && (ISROOT[%(v)s] ==> ROOTOF[COMP[%(v)s]] == %(v)s)"
-             " && (!ISROOT[%(v)s] ==> (POSOF[%(v)s] < vp_emitted && EMW[POSOF[%(v)s]] == %(v)s))")
+        # cur: True inside the exploration of component c, False at the outer loop head
+        s = "(REACHED(%(v)s) ==> (" + ("COMP[%(v)s] <= c" if cur else "COMP[%(v)s] < c && QPOS[%(v)s] < head")
+        s += (" && QPOS[%(v)s] < tail && Q[QPOS[%(v)s]] == %(v)s"
+              " && (ISROOT[%(v)s] ==> ROOTOF[COMP[%(v)s]] == %(v)s)"
+              " && (!ISROOT[%(v)s] ==> (POSOF[%(v)s] < vp_emitted && EMW[POSOF[%(v)s]] == %(v)s))")
         if cur:
             s += " && ((QPOS[%(v)s] >= hstart) == (COMP[%(v)s] == c))"
-        else:
-            s += " && COMP[%(v)s] < c && QPOS[%(v)s] < head"
         s += "))"
         return s % dict(v=v)
 
@@ -145,7 +153,7 @@ def _unit(bounded, stage=4):
     # the queue at an arbitrary position p0: a reached vertex sitting at exactly this position, labelled c iff pushed during the current exploration
     qfacts_outer = "(p0 < tail ==> (Q[p0] < vp_n && !UNR[Q[p0]] && QPOS[Q[p0]] == p0 && COMP[Q[p0]] < c))"
     qfacts_inner = "(p0 < tail ==> (Q[p0] < vp_n && !UNR[Q[p0]] && QPOS[Q[p0]] == p0 && COMP[Q[p0]] <= c && ((p0 >= hstart) == (COMP[Q[p0]] == c))))"
-    counts_outer = "nun <= vp_n && c <= vp_n && vp_emitted <= vp_n && vp_emitted + c + nun == vp_n && head == tail && tail + nun == vp_n"
+    counts_outer = "(nun == vp_n || c >= 1) && nun <= vp_n && c <= vp_n && vp_emitted <= vp_n && vp_emitted + c + nun == vp_n && head == tail && tail + nun == vp_n"
     counts_inner = "nun < vp_n && c < vp_n && vp_emitted < vp_n && vp_emitted + c + 1 + nun == vp_n && head <= tail && tail + nun == vp_n && hstart <= head && hstart < tail"
     inv_init = ("__CPROVER_assigns(ui, nun, __CPROVER_object_whole(UNR))\n"
                 "__CPROVER_loop_invariant(ui <= vp_n && uiend == vp_n && nun == ui && (g0 < ui ==> UNR[g0]) && (x0 < ui ==> UNR[x0]) && (y0 < ui ==> UNR[y0])"
@@ -153,40 +161,59 @@ def _unit(bounded, stage=4):
                 "__CPROVER_decreases(vp_n - ui)")
     big_assigns = ("nun, head, tail, vp_emitted, hstart, __CPROVER_object_whole(EMP), __CPROVER_object_whole(UNR), __CPROVER_object_whole(Q), __CPROVER_object_whole(QPOS), __CPROVER_object_whole(COMP),"
                    " __CPROVER_object_whole(POSOF), __CPROVER_object_whole(ROOTOF), __CPROVER_object_whole(ISROOT), __CPROVER_object_whole(EM), __CPROVER_object_whole(EMU), __CPROVER_object_whole(EMW)")
-    inv_outer = ("__CPROVER_assigns(c, %s)\n__CPROVER_loop_invariant(%s && %s && %s && %s && %s && %s && %s && %s)\n__CPROVER_decreases(nun)" % (
-        big_assigns, counts_outer, qfacts_outer, vfacts("g0", False), vfacts("x0", False), vfacts("y0", False), emitted,
-        closure("x0", "y0", "j0", "1"), closure("y0", "x0", "j1", "1")))
-    inv_bfs = ("__CPROVER_assigns(%s)\n__CPROVER_loop_invariant(%s && %s && %s && %s && %s && %s && %s && %s)\n__CPROVER_decreases(vp_n - head)" % (
-        big_assigns, counts_inner, qfacts_inner, vfacts("g0", True), vfacts("x0", True), vfacts("y0", True), emitted,
-        closure("x0", "y0", "j0", "QPOS[x0] < head"), closure("y0", "x0", "j1", "QPOS[y0] < head")))
-    inv_scan = ("__CPROVER_assigns(ei, %s)\n__CPROVER_loop_invariant(ei <= eiRange_second && head >= 1 && hstart < head && Q[head - 1] == u && %s && %s && %s && %s && %s && %s && %s && %s)\n"
+    def pick(parts):
+        # parts: list of (min stage, text)
+        return " && ".join(t for st, t in parts if stage >= st)
+    inv_outer = ("__CPROVER_assigns(c, %s)\n__CPROVER_loop_invariant(%s)\n__CPROVER_decreases(nun)" % (
+        big_assigns, pick([(1, counts_outer), (2, qfacts_outer), (2, vfacts("g0", False)), (3, vfacts("x0", False)), (3, vfacts("y0", False)), (2, emitted),
+        (3, closure("x0", "y0", "j0", "1")), (3, closure("y0", "x0", "j1", "1"))])))
+    inv_bfs = ("__CPROVER_assigns(%s)\n__CPROVER_loop_invariant(%s)\n__CPROVER_decreases(vp_n - head)" % (
+        big_assigns.replace("hstart, ", ""), pick([(1, counts_inner), (2, qfacts_inner), (2, vfacts("g0", True)), (3, vfacts("x0", True)), (3, vfacts("y0", True)), (2, emitted),
+        (3, closure("x0", "y0", "j0", "QPOS[x0] < head")), (3, closure("y0", "x0", "j1", "QPOS[y0] < head"))])))
+    inv_scan = ("__CPROVER_assigns(ei, %s)\n__CPROVER_loop_invariant(ei <= eiRange_second && head >= 1 && hstart < head && Q[head - 1] == u && %s)\n"
                 "__CPROVER_decreases(eiRange_second - ei)" % (
-        big_assigns.replace("head, ", ""), counts_inner, qfacts_inner, vfacts("g0", True), vfacts("x0", True), vfacts("y0", True), emitted,
-        closure("x0", "y0", "j0", "QPOS[x0] + 1 < head || (QPOS[x0] + 1 == head && ei > j0)"),
-        closure("y0", "x0", "j1", "QPOS[y0] + 1 < head || (QPOS[y0] + 1 == head && ei > j1)")))
+        big_assigns.replace("head, ", "").replace("hstart, ", ""), pick([(1, counts_inner), (2, qfacts_inner), (2, vfacts("g0", True)), (3, vfacts("x0", True)), (3, vfacts("y0", True)), (2, emitted),
+        (3, closure("x0", "y0", "j0", "QPOS[x0] + 1 < head || (QPOS[x0] + 1 == head && ei > j0)")),
+        (3, closure("y0", "x0", "j1", "QPOS[y0] + 1 < head || (QPOS[y0] + 1 == head && ei > j1)"))])))
+    cut = body.find("size_t c = 0;")
+    if cut < 0:
+        raise Undecided("extraction out of date: declaration of the component counter")
+    fill_body, body = body[:cut], body[cut:]
+    if len(X.loops(fill_body)) != 1:
+        raise Undecided("extraction out of date: the initialisation part has %d loops" % len(X.loops(fill_body)))
+    if which == "fill":
+        return _fill_unit(fill_body, log, rel)
     if not bounded:
-        body = X.splice_loop_contracts(body, {0: inv_init, 1: inv_outer, 2: inv_bfs, 3: inv_scan}, log)
-    fn = r"""
-size_t hstart;      /* ghost: queue position at which the exploration of the current component started */
-size_t forest(void)
-__CPROVER_requires(vp_n <= MAXN && nun == 0 && head == 0 && tail == 0 && vp_emitted == 0)
-__CPROVER_requires(!UNR[g0] && !UNR[x0] && !UNR[y0])                                                    /* the set starts empty */
-__CPROVER_requires(g0 < vp_n && x0 < vp_n && y0 < vp_n && j0 < d_x0 && j1 < d_y0 && (x0 == y0 ==> d_x0 == d_y0))    /* the ghost slots exist */
-__CPROVER_assigns(nun, head, tail, vp_emitted, hstart, __CPROVER_object_whole(EMP), __CPROVER_object_whole(UNR), __CPROVER_object_whole(Q), __CPROVER_object_whole(QPOS), __CPROVER_object_whole(COMP),
-                  __CPROVER_object_whole(POSOF), __CPROVER_object_whole(ROOTOF), __CPROVER_object_whole(ISROOT), __CPROVER_object_whole(EM), __CPROVER_object_whole(EMU), __CPROVER_object_whole(EMW))
-/* P1: component count and number of emitted edges */
-__CPROVER_ensures(vp_n == 0 ==> (__CPROVER_return_value == 0 && vp_emitted == 0))
-__CPROVER_ensures(vp_n > 0 ==> (__CPROVER_return_value >= 1 && __CPROVER_return_value <= vp_n && vp_emitted + __CPROVER_return_value == vp_n))
-/* P2: the emitted edge at an arbitrary position q0 joins an earlier vertex to the vertex it discovered */
+        body = X.splice_loop_contracts(body, {0: inv_outer, 1: inv_bfs, 2: inv_scan}, log)
+    p2 = r"""/* P2: the emitted edge at an arbitrary position q0 joins an earlier vertex to the vertex it discovered */
 __CPROVER_ensures(q0 < vp_emitted ==> (EMW[q0] < vp_n && POSOF[EMW[q0]] == q0 && !ISROOT[EMW[q0]] && EMP[q0] < QPOS[EMW[q0]] && Q[EMP[q0]] == EMU[q0]))
 __CPROVER_ensures((q0 < vp_emitted && EMP[q0] == p0) ==> (EMU[q0] < vp_n && QPOS[EMU[q0]] == p0 && COMP[EMU[q0]] == COMP[EMW[q0]]))      /* p0 arbitrary: holds for the parent's position */
 /* queue positions are a well-defined discovery order: the vertex at an arbitrary position p0 sits only there */
 __CPROVER_ensures(p0 < tail ==> (Q[p0] < vp_n && QPOS[Q[p0]] == p0))
 /* P3: every vertex is reached, as a component root or as the child end of exactly one emitted edge */
 __CPROVER_ensures(!UNR[g0] && (ISROOT[g0] || (POSOF[g0] < vp_emitted && EMW[POSOF[g0]] == g0)))
-/* P4: labels are below the returned count, each label has one root, adjacent vertices share their label */
+/* P4a: labels are below the returned count, each label has one root */
 __CPROVER_ensures(COMP[g0] < __CPROVER_return_value && (ISROOT[g0] ==> ROOTOF[COMP[g0]] == g0))
+"""
+    p4 = r"""/* P4b: adjacent vertices share their label */
 __CPROVER_ensures(COMP[x0] == COMP[y0])
+"""
+    post = (p2 if stage >= 2 else "") + (p4 if stage >= 3 else "")
+    fn = r"""
+size_t hstart;      /* ghost: queue position at which the exploration of the current component started */
+size_t forest(void)
+/* state after the initialisation part (its contract, unit K15a_fill): every vertex is in the set, nun == n; queue and output empty */
+__CPROVER_requires(vp_n >= 1 && vp_n <= MAXN && nun == vp_n && head == 0 && tail == 0 && vp_emitted == 0)
+__CPROVER_requires(g0 < vp_n && x0 < vp_n && y0 < vp_n && j0 < d_x0 && j1 < d_y0 && (x0 == y0 ==> d_x0 == d_y0))    /* the ghost slots exist */
+#ifdef VP_BOUNDED
+__CPROVER_requires(d_x0 <= 2 && d_y0 <= 2)
+#endif
+__CPROVER_requires(UNR[g0] && UNR[x0] && UNR[y0])
+__CPROVER_assigns(nun, head, tail, vp_emitted, hstart, __CPROVER_object_whole(EMP), __CPROVER_object_whole(UNR), __CPROVER_object_whole(Q), __CPROVER_object_whole(QPOS), __CPROVER_object_whole(COMP),
+                  __CPROVER_object_whole(POSOF), __CPROVER_object_whole(ROOTOF), __CPROVER_object_whole(ISROOT), __CPROVER_object_whole(EM), __CPROVER_object_whole(EMU), __CPROVER_object_whole(EMW))
+/* P1: component count and number of emitted edges */
+__CPROVER_ensures(vp_n > 0 ==> (__CPROVER_return_value >= 1 && __CPROVER_return_value <= vp_n && vp_emitted + __CPROVER_return_value == vp_n))
+%s
 {%s}
 size_t vp_in_n;
 void h_forest(void) {
@@ -194,23 +221,120 @@ void h_forest(void) {
   size_t r = forest();
   __CPROVER_assert(0, "VP_REACH end of harness");
 }
-""" % body
+""" % (post, body)
+    if bounded:
+        return _bounded_unit(body, post, log, rel)
     name = "K15a_spanning_forest" + ("_bounded" if bounded else "")
     spec = dict(unit=name, site="K15a_spanning_forest", lang="c", source=rel + " (parmcb::detail::spanning_forest)",
-                text=PRE % dict(MAXN="4" if bounded else "1048576") + fn, entry="h_forest", enforce="forest",
-                replace=["uset_insert", "uset_empty", "uset_begin", "uset_find", "uset_erase", "out_degree", "out_target", "out_edge"],
-                rewrites=log, timeout=1500, dropped=["template header; typedefs; concept checks"],
+                text=("#define VP_BOUNDED 1\n" if bounded else "") + PRE % dict(MAXN="3" if bounded else MAXN_PROOF) + fn, entry="h_forest", enforce="forest",
+                replace=["uset_empty", "uset_begin", "uset_find", "uset_erase", "out_degree", "out_target", "out_edge"],
+                rewrites=log, timeout=2400, split=16, flags=["--object-bits", "12"], dropped=["template header; typedefs; concept checks"],
                 assumptions=["contracts of std::unordered_set (insert/empty/begin/find/erase), std::queue (FIFO array), boost::out_edges/target (a fixed adjacency structure, "
                              "symmetric: the ghost slot (x0,j0)->y0 has a reverse slot (y0,j1)->x0) - assumed dependency contracts",
                              "informal lemma: P1-P4 imply 'c = number of connected components and the emitted edges are a spanning forest' (DESIGN 10.7); bounded stand-in e3_components[C16]"],
                 trusted=["cbmc 6.11 + DFCC, SAT back end"])
     if bounded:
-        spec.update(mode="bounded", bound="n <= 4, degrees <= 3, unwound", unwind=6, functions={"detail::spanning_forest": "bounded(n<=4)"})
+        spec.update(mode="bounded", bound="n <= 3, degrees <= 2, unwound", unwind=5, split=0, functions={"detail::spanning_forest": "bounded(n<=3)"})
     else:
-        spec.update(mode="proof", bound="unbounded in n and in the degrees (three nested loops closed by loop contracts; n <= 2^20 object-size cap)",
-                    loop_contracts=True, fallback=lambda: _unit(True), functions={"detail::spanning_forest": "proved"})
+        spec.update(mode="proof", bound="proved(n<=%s): three nested loops closed by loop contracts, degrees / multi-edges / self-loops unbounded; the cap is the size of the arrays the containers are bound to" % MAXN_PROOF,
+                    loop_contracts=True, unwind=24, fallback=lambda: _unit(True), functions={"detail::spanning_forest (main loops)": "proved(n<=%s)" % MAXN_PROOF})
     return spec
 
 
-def units(tier):
-    return [X.guarded("K15a_spanning_forest", _unit, False)]
+PRE_BOUNDED = r"""
+#include <stddef.h>
+typedef _Bool bool;
+#define MAXN 3
+#define MAXD 2
+#define NONE ((size_t) -1)
+size_t vp_n;
+size_t x0, j0, y0, j1, d_x0, d_y0, g0, q0, p0;
+/* executable models of the dependencies (bounded variant only): the set is its membership table, the graph an adjacency table */
+bool UNR[MAXN]; size_t nun;
+bool uset_empty(void) { return nun == 0; }
+size_t uset_begin(void) { size_t v; __CPROVER_assume(v < vp_n && UNR[v]); return v; }
+size_t uset_find(size_t w) { return UNR[w] ? w : NONE; }
+void uset_erase(size_t v) { __CPROVER_assert(v < vp_n && UNR[v], "uset_erase precondition: an element of the set"); UNR[v] = 0; nun--; }
+size_t DEG[MAXN], ADJ[MAXN][MAXD], AE[MAXN][MAXD];
+size_t out_degree(size_t u) { return DEG[u]; }
+size_t out_target(size_t u, size_t j) { return ADJ[u][j]; }
+size_t out_edge(size_t u, size_t j) { return AE[u][j]; }
+size_t Q[MAXN], head, tail;
+size_t EM[MAXN], EMU[MAXN], EMW[MAXN], EMP[MAXN], vp_emitted;
+size_t QPOS[MAXN], COMP[MAXN], POSOF[MAXN], ROOTOF[MAXN]; bool ISROOT[MAXN];
+#define REACHED(v) ((v) < vp_n && !UNR[v])
+size_t hstart;
+"""
+
+
+def _bounded_unit(body, post, log, rel):
+    """plain CBMC (no DFCC): all loops unwound, dependencies by executable models, the contract as assume/assert in the harness"""
+    import re
+    ens = re.findall(r"__CPROVER_ensures\((.*)\)\s*(?:/\*.*)?$", post, re.M)
+    asserts = "\n".join('  __CPROVER_assert(%s, "K15a.post.%d");' % (e.replace("__CPROVER_return_value", "r"), i + 2) for i, e in enumerate(ens))
+    body = body.replace('__CPROVER_assert(head != p0', '__CPROVER_assert(head != p0')   # ghost assertion kept
+    fn = r"""
+size_t forest(void) {%s}
+size_t vp_in_n;
+void h_forest(void) {
+  __CPROVER_assume(vp_n >= 1 && vp_n <= MAXN);
+  for (size_t v = 0; v < MAXN; v++) {
+    UNR[v] = v < vp_n; __CPROVER_assume(DEG[v] <= MAXD);
+    for (size_t j = 0; j < MAXD; j++) __CPROVER_assume(ADJ[v][j] < vp_n);
+  }
+  nun = vp_n; head = 0; tail = 0; vp_emitted = 0;
+  __CPROVER_assume(g0 < vp_n && x0 < vp_n && y0 < vp_n && j0 < DEG[x0] && j1 < DEG[y0] && ADJ[x0][j0] == y0 && ADJ[y0][j1] == x0);
+  d_x0 = DEG[x0]; d_y0 = DEG[y0];
+  vp_in_n = vp_n;
+  size_t r = forest();
+  __CPROVER_assert(r >= 1 && r <= vp_n && vp_emitted + r == vp_n, "K15a.post.1");
+%s
+  __CPROVER_assert(0, "VP_REACH end of harness");
+}
+""" % (body, asserts)
+    return dict(unit="K15a_spanning_forest_bounded", site="K15a_spanning_forest", lang="c", source=rel + " (parmcb::detail::spanning_forest)",
+                text=PRE_BOUNDED + fn, entry="h_forest", rewrites=log, timeout=900, unwind=5, mode="bounded", flags=["--nondet-static"],
+                bound="n <= 3, degrees <= 2, all loops unwound; dependencies by executable models", functions={"detail::spanning_forest": "bounded(n<=3)"},
+                trusted=["cbmc 6.11 SAT back end"])
+
+
+def _fill_unit(fill_body, log, rel):
+    """the part before the main loops: early return for the empty graph + insertion of every vertex; the loop is UNWOUND (n <= MAXF):
+    that n pairwise distinct insertions into an empty set give a set of n elements needs the whole membership table, not a ghost element."""
+    MAXF = 24
+    fn = r"""
+size_t vp_early;      /* ghost: the function returned before the main loops */
+size_t fill(void)
+__CPROVER_requires(vp_n <= MAXN && nun == 0)
+__CPROVER_assigns(nun, vp_early, __CPROVER_object_whole(UNR))
+__CPROVER_ensures(vp_n == 0 ==> (vp_early == 1 && __CPROVER_return_value == 0))                 /* empty graph: 0 components, nothing emitted */
+__CPROVER_ensures(vp_n > 0 ==> (vp_early == 0 && nun == vp_n && (g0 < vp_n ==> UNR[g0]) && (g0 >= vp_n && g0 < MAXN ==> !UNR[g0])))
+{
+  vp_early = 1;
+  %s
+  vp_early = 0;
+  return 0;
+}
+void h_fill(void) {
+  __CPROVER_assume(vp_n <= MAXN);
+  for (size_t i = 0; i < MAXN; i++) UNR[i] = 0;      /* std::unordered_set default constructor: empty */
+  nun = 0;
+  size_t r = fill();
+  __CPROVER_assert(0, "VP_REACH end of harness");
+}
+""" % fill_body
+    return dict(unit="K15a_fill", site="K15a_fill", lang="c", source=rel + " (spanning_forest: empty-graph return + initialisation of the unreached set)",
+                text=PRE % dict(MAXN=str(MAXF)) + fn, entry="h_fill", enforce="fill", replace=["uset_insert"], rewrites=log, timeout=900,
+                flags=["--object-bits", "12"], unwind=MAXF + 2, mode="bounded",
+                bound="n <= %d, the insertion loop unwound (cardinality of a set of n distinct values needs the whole table)" % MAXF,
+                functions={"detail::spanning_forest (initialisation)": "bounded(n<=%d)" % MAXF},
+                assumptions=["contract of std::unordered_set::insert; boost::vertices(g) enumerates n pairwise distinct descriptors 0..n-1 (vecS)"],
+                trusted=["cbmc 6.11 + DFCC, SAT back end"])
+
+
+def units(tier, stage=3):
+    global MAXN_PROOF
+    # the cap is only the size of the arrays the containers are bound to (no ghost table is defined by a harness loop);
+    # the solver time grows with it (5: ~2 min on 16 cores, 8: ~10 min)
+    MAXN_PROOF = "8" if tier == "thorough" else "5"
+    return [X.guarded("K15a_fill", _unit, False, stage, "fill"), X.guarded("K15a_spanning_forest", _unit, False, stage)]
